@@ -81,7 +81,7 @@ def main():
     env = dict(os.environ)
     env.update({"CARGO_NET_OFFLINE": "true", "VERIF_REPO": scratch, "CARGO_TARGET_DIR": "/tmp/mtarget_%s" % wid, "VERIF_WD_SUFFIX": "_w%s" % wid})
     for rel in files:
-        outp = os.path.join(ROOT, ".build", "mutants", rel.replace("/", "_") + os.environ.get("MUT_SET", "") + os.environ.get("MUT_LINES", "") + ".jsonl")
+        outp = os.path.join(ROOT, ".build", "mutants", rel.replace("/", "_") + os.environ.get("MUT_SET", "") + os.environ.get("MUT_TAG", os.environ.get("MUT_LINES", "")) + ".jsonl")
         done = set()
         if os.path.exists(outp):
             for l in open(outp):
@@ -89,7 +89,10 @@ def main():
         orig = open("/repo/" + rel).read()
         ms = mutants_of(rel)
         if os.environ.get("MUT_LINES"):
-            lo_, hi_ = map(int, os.environ["MUT_LINES"].split("-")); ms = [m for m in ms if lo_ <= m["line"] <= hi_]
+            if "," in os.environ["MUT_LINES"] or "-" not in os.environ["MUT_LINES"]:
+                want_ = set(int(x) for x in os.environ["MUT_LINES"].split(",")); ms = [m for m in ms if m["line"] in want_]
+            else:
+                lo_, hi_ = map(int, os.environ["MUT_LINES"].split("-")); ms = [m for m in ms if lo_ <= m["line"] <= hi_]
         print("%s: %d mutants" % (rel, len(ms)), flush=True)
         for k, m in enumerate(ms):
             if (m["line"], m["kind"], m["old"]) in done:
